@@ -480,14 +480,14 @@ func (s *sim) probe(r *route, sh Shape) error {
 		s.c.Probe("public_route_request")
 	case authn == "no":
 		loginRedirect := resp.Code == http.StatusFound && (eff == "/" || eff == "/index.html") && strings.HasSuffix(resp.Location, "/login.html")
-		if resp.Code != http.StatusForbidden && !loginRedirect && !canonical && isPublic(raw) {
-			// CONNECT is dispatched on the raw path.  The raw path looks like a
-			// static asset to the auth middleware although it normalises to a
-			// protected path.
-			v := kernel.Violationf("unauth-connect-raw-path-taken-for-asset", "%s: the path normalises to %q, which is not public, yet the request passed the auth middleware (it matches the public-resource pattern textually) and the static file server answered %d location=%q", desc, eff, resp.Code, resp.Location)
-			if !s.c.Tolerate(v) {
-				return v
-			}
+		if !canonical && isPublic(raw) && resp.Code >= 300 && resp.Code < 400 && resp.Code != http.StatusNotModified {
+			// CONNECT is dispatched on the raw path: a non-canonical spelling
+			// under the public static prefix (/assets/..) is taken by the
+			// static file server, which answers with its own redirect.  No
+			// protected handler ran (the state digest is still compared); this
+			// is the static handler's counterpart of the mux's redirect for a
+			// non-canonical path.
+			s.c.Probe("static_redirect_for_non_canonical_asset_path")
 			return nil
 		}
 		if resp.Code != http.StatusForbidden && !loginRedirect {
@@ -719,10 +719,11 @@ var Prop = &kernel.Property{
 	Assumptions: []string{
 		"handlers are never allowed to run with valid credentials except six read-only GET handlers (positive control); for authenticated requests only what the statement says is rejected before the handler is sent (wrong method -> 405, mutating method with a non-JSON content type -> 415)",
 		"a request with a dead cookie next to correct basic credentials may be served or refused",
+		"a redirect (3xx) issued by the public static file server itself for a non-canonical spelling under /assets/ (reachable only with CONNECT, which the mux dispatches on the raw path, e.g. CONNECT /assets/..) is accepted like the mux's own redirect for a non-canonical path: static assets are public, no protected handler runs and the state digest is unchanged; any other answer there, a protected handler running or a state change is still a violation",
 		"the login route is public for every method (a GET is answered 405 by its own method guard)",
 		"package internal/next (another binary with its own mux) is not part of the node",
 		"a route is covered if it is on the real mux after the real registration code has run; the space of source programs is not enumerated",
 	},
 	FaultKinds: []string{"clean_restart", "process_crash", "clock_past_session_ttl"},
-	ProbeNames: []string{"request", "non_canonical_spelling", "mux_redirect_to_canonical_path", "install_route_forbidden", "public_route_request", "unauth_forbidden", "unauth_redirected_to_login", "expired_cookie_refused", "logged_out_cookie_refused", "dead_cookie_with_right_basic", "auth_wrong_method_405", "auth_non_json_415", "auth_positive_control_200", "authenticated_static_or_fallthrough", "connect_non_canonical", "skipped_authenticated_handler_would_run", "skipped_authenticated_no_declared_method", "state_digest_compared", "route_registered_directly_on_mux"},
+	ProbeNames: []string{"request", "non_canonical_spelling", "mux_redirect_to_canonical_path", "install_route_forbidden", "public_route_request", "unauth_forbidden", "unauth_redirected_to_login", "expired_cookie_refused", "logged_out_cookie_refused", "dead_cookie_with_right_basic", "auth_wrong_method_405", "auth_non_json_415", "auth_positive_control_200", "authenticated_static_or_fallthrough", "connect_non_canonical", "static_redirect_for_non_canonical_asset_path", "skipped_authenticated_handler_would_run", "skipped_authenticated_no_declared_method", "state_digest_compared", "route_registered_directly_on_mux"},
 }
